@@ -495,7 +495,8 @@ class _Coverage:
 _COV = None
 
 
-def enable_coverage(prefix="/repo/src/gtirb_rewriting/"):
+def enable_coverage(prefix=None):
+    prefix = prefix or (os.environ.get("VERIF_REPO") or "/repo") + "/src/gtirb_rewriting/"
     global _COV
     if _COV is None and hasattr(sys, "monitoring"):
         _COV = _Coverage(prefix)
